@@ -114,4 +114,31 @@ CLAIMS["C10"] = {
             "trace (reads only before the commit write, nothing after it). Detached tasks of the parallel insertion (D10) are a runtime "
             "behaviour: found by the enumeration, not by the theorem.",
 }
+CLAIMS["C09"] = {
+    "text": "The auditor rebuilds two trees with the real insertion algorithm; proved in Lean so far is that this algorithm computes "
+            "the canonical trie for every prefix-free node set in auditor mode (batchInsert_refines) and that a root hash determines "
+            "the trie (rootHash_injective). The soundness theorem itself (Thm/C09.lean: audit_sound for the repaired auditor, with "
+            "the kernel-checked witness that the pinned auditor accepted a shadowing node set, defect D2) is stated and being "
+            "proved; until it is an obligation the clause rests on the correspondence run: adversarially edited audit proofs are "
+            "verified by the real auditor (compared with the model's verdict) and an independent oracle checks that nothing "
+            "committed earlier is lost whenever a proof is accepted.",
+    "note": BASE_NOTE,
+}
+CLAIMS["C06"] = {
+    "text": "Proved in Lean so far: the two leaf-level soundness theorems every step of lookup verification rests on "
+            "(membership_sound_leaf, nonmembership_sound, for every proof value). The composition lookup_sound (Thm/C06.lean: against "
+            "the root of a tree that is honest for the label, ANY accepted lookup proof reports the latest version, its value and "
+            "epoch; nothing is accepted for an unpublished label) is stated and being proved; until it is an obligation that step rests "
+            "on the correspondence run with the symbolic server adversary on the real lookup_verify and an independent oracle.",
+    "note": BASE_NOTE + "VRF modelled by its contract (complete, unique output) over an oracle table from the real HardCodedAkdVRF.",
+}
+CLAIMS["C07"] = {
+    "text": "Proved in Lean so far: leaf-level soundness (C05) and the marker facts that exclude dropping the newest entries "
+            "(succ_mem_future: version end+1 is always among the versions a proof must show absent). The composition history_sound / "
+            "history_sound_tombstone / late_stale_rejected (Thm/C07.lean) is stated and being proved; until it is an obligation that "
+            "step rests on the correspondence run with the symbolic server adversary on the real key_history_verify in both modes "
+            "and an independent oracle. Known finding C07-F1 (tombstoned version-1 entry can be misdated) is confirmed on the real "
+            "verifier and is the exception clause of the stated theorem.",
+    "note": BASE_NOTE + "VRF modelled by its contract over an oracle table.",
+}
 NOT_YET = {}
